@@ -104,7 +104,7 @@ func init() {
 			Ideal: famState(5), IdealProps: []string{"P_C06", "P_C10"}, IdealInvs: []string{"CodeReadyIsSpecReady"}, Probes: probeBlankAgents, Extra: inductiveClaimRule,
 			Proc:     &ProcCheck{Prop: "C06", Scenarios: "StateScenarios", IdealInvs: []string{"Serializable"}, Only: []string{"C06_serial", "C06_final"}},
 			GenQuick: famState(3), GenThorough: famState(5), SampleQuick: 150,
-			Sim: with(famState(12), func(m *SeqModel) { m.MaxTasks = 3; m.Extras = append(m.Extras, "modes") }), SimNumQuick: 80, SimNumThorough: 2000}
+			Sim: with(famState(12), func(m *SeqModel) { m.MaxTasks = 3; m.Extras = append(m.Extras, "modes") }), SimNumQuick: 80, SimNumThorough: 1200}
 	}
 	registry["C07"] = func() Check {
 		return &SeqCheck{Prop: "C07",
@@ -126,49 +126,49 @@ func init() {
 					m.CmdNames = []string{"new_epic", "sequence", "sequence_rm"}
 				}),
 			},
-			CraftQuick: famCraft(600, "prune", "compact"), CraftThorough: famCraft(8000, "prune", "compact"),
-			Sim: with(famGraph(4, 2, 14), func(m *SeqModel) { m.Extras = append(m.Extras, "chains", "badid") }), SimNumQuick: 60, SimNumThorough: 2000}
+			CraftQuick: famCraft(600, "prune", "compact"), CraftThorough: famCraft(4000, "prune", "compact"),
+			Sim: with(famGraph(4, 2, 14), func(m *SeqModel) { m.Extras = append(m.Extras, "chains", "badid") }), SimNumQuick: 60, SimNumThorough: 1200}
 	}
 	registry["C08"] = func() Check {
 		return &SeqCheck{Prop: "C08",
 			Ideal: famReady(3, 2, 5), IdealDeep: famReady(3, 2, 6), IdealProps: []string{"P_C08"}, IdealInvs: []string{"CodeReadyIsSpecReady"}, Probes: probeClaimOrder,
 			Proc:     &ProcCheck{Prop: "C08", Scenarios: "ClaimScenarios", IdealInvs: []string{"Serializable"}, Only: []string{"C08_serial"}, MaxRunsQuick: 500},
 			GenQuick: famReady(2, 2, 4), GenThorough: famReady(3, 2, 6), SampleQuick: 120,
-			CraftQuick: famCraft(700, "claim", "list_ready"), CraftThorough: famCraft(8000, "claim", "list_ready"),
-			Sim: famReady(4, 2, 14), SimNumQuick: 60, SimNumThorough: 2000}
+			CraftQuick: famCraft(700, "claim", "list_ready"), CraftThorough: famCraft(4000, "claim", "list_ready"),
+			Sim: famReady(4, 2, 14), SimNumQuick: 60, SimNumThorough: 1200}
 	}
 	registry["C09"] = func() Check {
 		return &SeqCheck{Prop: "C09",
 			Ideal: famIds(2, 1, 5), IdealDeep: famIds(3, 1, 6), IdealProps: []string{"P_C09"}, IdealInvs: []string{"CodePruneIsSpecPrune"}, Probes: append(append([]emitted{}, probeReissue...), probeAfterPrune...),
 			Proc:     &ProcCheck{Prop: "C09", Scenarios: "PruneScenarios", IdealInvs: []string{"Serializable"}, Only: []string{"C09_serial"}},
 			GenQuick: famIds(2, 1, 4), GenThorough: famIds(2, 1, 6), SampleQuick: 100,
-			CraftQuick: famCraft(600, "prune", "prune_dry"), CraftThorough: famCraft(8000, "prune", "prune_dry"),
+			CraftQuick: famCraft(600, "prune", "prune_dry"), CraftThorough: famCraft(4000, "prune", "prune_dry"),
 			// hand-merged logs: a pruned item's create/update/link/tombstone events in every order
 			Craft2Quick:    famMerged(80, "sequence", "compact", "reads"),
 			Craft2Thorough: famMerged(2500, "sequence", "sequence_rm", "set", "compact", "reads", "claim"),
-			Sim:            famIds(3, 2, 12), SimNumQuick: 60, SimNumThorough: 2000}
+			Sim:            famIds(3, 2, 12), SimNumQuick: 60, SimNumThorough: 1200}
 	}
 	registry["C10"] = func() Check {
 		return &SeqCheck{Prop: "C10",
 			Ideal: famFull(3), IdealDeep: famFull(4), IdealProps: []string{"P_C10"}, Extra: textRejects, Probes: append(append(append([]emitted{}, probeHalf...), probeD10...), probeTorn...),
 			Proc:     &ProcCheck{Prop: "C10", Scenarios: "FailScenarios", IdealInvs: []string{"Serializable"}, Only: []string{"C10_serial"}},
 			GenQuick: famFull(2), GenThorough: famFullModes(3), SampleQuick: 60,
-			Sim: with(famFullModes(10), func(m *SeqModel) { m.MaxTasks = 3 }), SimNumQuick: 100, SimNumThorough: 3000}
+			Sim: with(famFullModes(10), func(m *SeqModel) { m.MaxTasks = 3 }), SimNumQuick: 100, SimNumThorough: 1000}
 	}
 	registry["C11"] = func() Check {
 		return &SeqCheck{Prop: "C11",
 			Ideal: famPlan(3), IdealDeep: famPlan(4), IdealProps: []string{"P_C11"}, Probes: probePlanIDs,
 			GenQuick:    with(famPlan(2), func(m *SeqModel) { m.Extras = append(m.Extras, "trailing") }),
 			GenThorough: with(famPlan(4), func(m *SeqModel) { m.Extras = append(m.Extras, "trailing") }), SampleQuick: 100,
-			Sim: famPlan(8), SimNumQuick: 60, SimNumThorough: 1500}
+			Sim: famPlan(8), SimNumQuick: 60, SimNumThorough: 1000}
 	}
 	registry["C14"] = func() Check {
 		return &SeqCheck{Prop: "C14",
 			Ideal: famIds(2, 2, 4), IdealDeep: famIds(3, 2, 6), IdealProps: []string{"P_C14"}, Probes: append(append([]emitted{}, probeEpicRef...), probeIDOrder...),
 			Proc:     &ProcCheck{Prop: "C14", Scenarios: "PruneScenarios", IdealInvs: []string{"Serializable"}, Only: []string{"C14_final"}},
 			GenQuick: famIds(2, 1, 4), GenThorough: famIds(2, 2, 6), SampleQuick: 100,
-			CraftQuick: famCraft(800, "prune", "compact"), CraftThorough: famCraft(8000, "prune", "compact"),
-			Sim: famIds(3, 2, 12), SimNumQuick: 60, SimNumThorough: 2000}
+			CraftQuick: famCraft(800, "prune", "compact"), CraftThorough: famCraft(4000, "prune", "compact"),
+			Sim: famIds(3, 2, 12), SimNumQuick: 60, SimNumThorough: 1200}
 	}
 	registry["C15"] = func() Check {
 		return &SeqCheck{Prop: "C15",
@@ -184,20 +184,20 @@ func init() {
 					m.CmdNames = []string{"new_task", "sequence", "claim"}
 				}),
 			},
-			Sim: with(famGraph(4, 2, 14), func(m *SeqModel) { m.CmdNames = append(m.CmdNames, "claim"); m.Extras = append(m.Extras, "chains") }), SimNumQuick: 60, SimNumThorough: 2000}
+			Sim: with(famGraph(4, 2, 14), func(m *SeqModel) { m.CmdNames = append(m.CmdNames, "claim"); m.Extras = append(m.Extras, "chains") }), SimNumQuick: 60, SimNumThorough: 1200}
 	}
 	registry["C16"] = func() Check {
 		return &SeqCheck{Prop: "C16",
 			Ideal: famFull(3), IdealDeep: famFull(4), IdealProps: []string{"P_C16"}, Probes: append(append([]emitted{}, probeHalf...), probePlanIDs...),
 			Proc:     &ProcCheck{Prop: "C16", Scenarios: "PruneScenarios", IdealInvs: []string{"Serializable"}, Only: []string{"C16_prune_truth"}},
 			GenQuick: famFull(2), GenThorough: famFullModes(3), SampleQuick: 60,
-			Sim: with(famFullModes(10), func(m *SeqModel) { m.MaxTasks = 3 }), SimNumQuick: 100, SimNumThorough: 3000}
+			Sim: with(famFullModes(10), func(m *SeqModel) { m.MaxTasks = 3 }), SimNumQuick: 100, SimNumThorough: 1000}
 	}
 	registry["C20"] = func() Check {
 		return &SeqCheck{Prop: "C20",
 			Ideal: famResults(4), IdealDeep: famResults(5), IdealProps: []string{"P_C20"}, Probes: append(append([]emitted{}, probeCompact...), probeEvidence...),
 			GenQuick: famResults(3), GenThorough: famResults(5), SampleQuick: 100,
-			Sim: famResults(10), SimNumQuick: 60, SimNumThorough: 1500}
+			Sim: famResults(10), SimNumQuick: 60, SimNumThorough: 1000}
 	}
 	registry["C05"] = func() Check {
 		return &SeqCheck{Prop: "C05",
@@ -216,16 +216,16 @@ func init() {
 			// (random crafted stores are NOT used here: C05 quantifies over histories ergo can
 			// produce plus legacy logs; a hand-made "canceled but claimed" item does lose its
 			// claim in compaction, which is outside the property)
-			Craft2Quick: famLegacy(300, "compact"), Craft2Thorough: famLegacy(5000, "compact"),
+			Craft2Quick: famLegacy(300, "compact"), Craft2Thorough: famLegacy(3000, "compact"),
 			// (crafted stores whose state/claimant pairs are all legal ARE within the property)
 			CraftQuick:    with(famCraft(400, "compact"), func(m *SeqModel) { m.Name, m.CraftLegal, m.ViewMode = "crafted-legal", true, "timed" }),
-			CraftThorough: with(famCraft(5000, "compact"), func(m *SeqModel) { m.Name, m.CraftLegal, m.ViewMode = "crafted-legal", true, "timed" }),
-			Sim:           with(famFull(12), func(m *SeqModel) { m.MaxTasks = 3; m.ViewMode = "timed" }), SimNumQuick: 60, SimNumThorough: 2000}
+			CraftThorough: with(famCraft(3000, "compact"), func(m *SeqModel) { m.Name, m.CraftLegal, m.ViewMode = "crafted-legal", true, "timed" }),
+			Sim:           with(famFull(12), func(m *SeqModel) { m.MaxTasks = 3; m.ViewMode = "timed" }), SimNumQuick: 60, SimNumThorough: 1200}
 	}
 	registry["C12"] = func() Check {
 		return &SeqCheck{Prop: "C12",
 			Ideal: famFull(3), IdealDeep: famFull(4), IdealProps: []string{"P_C12"}, Extra: fileCases, Probes: append(append([]emitted{}, probeTorn...), probeAfterPrune...),
 			GenQuick: famFull(2), GenThorough: famFullModes(3), SampleQuick: 60,
-			Sim: with(famFullModes(10), func(m *SeqModel) { m.MaxTasks = 3 }), SimNumQuick: 100, SimNumThorough: 3000}
+			Sim: with(famFullModes(10), func(m *SeqModel) { m.MaxTasks = 3 }), SimNumQuick: 100, SimNumThorough: 1000}
 	}
 }
